@@ -25,6 +25,27 @@ def run(fx, rep, tier):
     rule_forward(fx, rep)
     import pC11
     pC11.rule_history(fx, rep, rid="C17-HISTORY")
+    rule_movegen(fx, rep)
+
+
+def rule_movegen(fx, rep):
+    """Each move text is matched against the legal moves generated for the current position (a text that matches none aborts the
+    engine), so the position command also rests on the move generator's clauses. The C01 rules are re-reported here as a
+    premise of this property (seed C17-4a: an en-passant capture missing from the list)."""
+    import core
+    import pC01
+    sub = type(rep)(rep.prop, rep.tier)
+    q = core.QUIET
+    core.QUIET = True
+    try:
+        pC01.run(fx, sub, "quick")
+    finally:
+        core.QUIET = q
+    for v in sub.violations:
+        rep.violation("C17-MOVEGEN", "C17-MOVEGEN/" + v["key"], v["msg"] + " (a game containing or needing that move is then replayed wrongly or aborts the engine)", v["site"])
+    rep.obligations += sub.obligations
+    rep.discharged += sub.discharged
+    rep.rule("C17-MOVEGEN", sub.obligations, 100, not sub.violations, "move generator clauses (shared with C01)")
 
 
 def rule_forward(fx, rep):
